@@ -10,6 +10,7 @@
 #include <verif.hpp>
 
 #include <cstring>
+#include <memory>
 #include <stdexcept>
 #include <string>
 #include <vector>
@@ -164,13 +165,35 @@ static S nth_string(uint64_t idx) {
 }
 static bool has_nul(const S& s) { return s.find('\0') != S::npos; }
 
+
+//! a view that is NOT followed by a NUL terminator: an exact-size heap block under ASan (reading past
+//! the end is a report), otherwise a slice between 0xFF guard bytes (reading past changes the result)
+struct Slice {
+    std::unique_ptr<char[]> buf;
+    SV sv;
+    explicit Slice(const S& s) {
+#if defined(__SANITIZE_ADDRESS__)
+        buf.reset(new char[s.size()]);
+        memcpy(buf.get(), s.data(), s.size());
+        sv = SV(buf.get(), s.size());
+#else
+        buf.reset(new char[s.size() + 2]);
+        buf[0] = (char)0xFF; buf[s.size() + 1] = (char)0xFF;
+        memcpy(buf.get() + 1, s.data(), s.size());
+        sv = SV(buf.get() + 1, s.size());
+#endif
+    }
+};
+
 static void check_one_string(const S& s) {
     S a = show(s);
+    Slice slice_s(s);
+    const SV sv_s = slice_s.sv;
     // case conversion
     { S t = s; tlx::to_lower(&t); EXPECT("to_lower(string*)", t, r_lower(s), a); }
-    EXPECT("to_lower(string_view)", tlx::to_lower(SV(s)), r_lower(s), a);
+    EXPECT("to_lower(string_view)", tlx::to_lower(sv_s), r_lower(s), a);
     { S t = s; tlx::to_upper(&t); EXPECT("to_upper(string*)", t, r_upper(s), a); }
-    EXPECT("to_upper(string_view)", tlx::to_upper(SV(s)), r_upper(s), a);
+    EXPECT("to_upper(string_view)", tlx::to_upper(sv_s), r_upper(s), a);
     // trim family with the default set, a char and a set (which may hold NUL)
     const S dflt = " \r\n\t";
     const S sets[3] = { S(" ,"), S("\0a", 2), S("\xE9\"") };
@@ -197,55 +220,55 @@ static void check_one_string(const S& s) {
         for (const S& d : sets) {
             { S t = s; ipd(&t, SV(d)); EXPECT(S(nm) + "(string*,set)", t, r_trim(s, d, L, R), a + "," + show(d)); }
             { SV t(s); vpd(&t, SV(d)); EXPECT(S(nm) + "(string_view*,set)", S(t.data(), t.size()), r_trim(s, d, L, R), a + "," + show(d)); }
-            { SV t = vvd(SV(s), SV(d)); EXPECT(S(nm) + "(string_view,set)", S(t.data(), t.size()), r_trim(s, d, L, R), a + "," + show(d)); }
+            { SV t = vvd(sv_s, SV(d)); EXPECT(S(nm) + "(string_view,set)", S(t.data(), t.size()), r_trim(s, d, L, R), a + "," + show(d)); }
         }
         for (unsigned char c : ALPHA) {
             S d(1, (char)c);
             { S t = s; ipc(&t, (char)c); EXPECT(S(nm) + "(string*,char)", t, r_trim(s, d, L, R), a + "," + show(d)); }
             { SV t(s); vpc(&t, (char)c); EXPECT(S(nm) + "(string_view*,char)", S(t.data(), t.size()), r_trim(s, d, L, R), a + "," + show(d)); }
-            { SV t = vvc(SV(s), (char)c); EXPECT(S(nm) + "(string_view,char)", S(t.data(), t.size()), r_trim(s, d, L, R), a + "," + show(d)); }
+            { SV t = vvc(sv_s, (char)c); EXPECT(S(nm) + "(string_view,char)", S(t.data(), t.size()), r_trim(s, d, L, R), a + "," + show(d)); }
         }
     }
     // erase_all, contains(char), replace(char,char), split(char), pad
     for (unsigned char c : ALPHA) {
         S d(1, (char)c), ad = a + "," + show(d);
         { S t = s; tlx::erase_all(&t, (char)c); EXPECT("erase_all(string*,char)", t, r_erase_all(s, d), ad); }
-        EXPECT("erase_all(string_view,char)", tlx::erase_all(SV(s), (char)c), r_erase_all(s, d), ad);
-        EXPECT("contains(string_view,char)", tlx::contains(SV(s), (char)c), s.find((char)c) != S::npos, ad);
+        EXPECT("erase_all(string_view,char)", tlx::erase_all(sv_s, (char)c), r_erase_all(s, d), ad);
+        EXPECT("contains(string_view,char)", tlx::contains(sv_s, (char)c), s.find((char)c) != S::npos, ad);
         { S t = s; tlx::replace_first(&t, (char)c, 'Z'); EXPECT("replace_first(string*,char,char)", t, r_replace(s, d, "Z", false), ad); }
-        EXPECT("replace_first(string_view,char,char)", tlx::replace_first(SV(s), (char)c, 'Z'), r_replace(s, d, "Z", false), ad);
+        EXPECT("replace_first(string_view,char,char)", tlx::replace_first(sv_s, (char)c, 'Z'), r_replace(s, d, "Z", false), ad);
         { S t = s; tlx::replace_all(&t, (char)c, 'Z'); EXPECT("replace_all(string*,char,char)", t, r_replace(s, d, "Z", true), ad); }
-        EXPECT("replace_all(string_view,char,char)", tlx::replace_all(SV(s), (char)c, 'Z'), r_replace(s, d, "Z", true), ad);
+        EXPECT("replace_all(string_view,char,char)", tlx::replace_all(sv_s, (char)c, 'Z'), r_replace(s, d, "Z", true), ad);
         for (size_t limit : { (size_t)0, (size_t)1, (size_t)2, (size_t)3, S::npos }) {
-            EXPECT("split(char)", tlx::split((char)c, SV(s), limit), r_split(d, s, limit), ad + ",limit=" + std::to_string(limit));
+            EXPECT("split(char)", tlx::split((char)c, sv_s, limit), r_split(d, s, limit), ad + ",limit=" + std::to_string(limit));
             VS into{ "stale" };
-            tlx::split(&into, (char)c, SV(s), limit);
+            tlx::split(&into, (char)c, sv_s, limit);
             EXPECT("split(into,char)", into, r_split(d, s, limit), ad + ",limit=" + std::to_string(limit));
             for (size_t mf : { (size_t)0, (size_t)2, (size_t)4 }) {
-                EXPECT("split(char,min_fields)", tlx::split((char)c, SV(s), mf, limit), r_split(d, s, limit, mf), ad + ",min=" + std::to_string(mf) + ",limit=" + std::to_string(limit));
+                EXPECT("split(char,min_fields)", tlx::split((char)c, sv_s, mf, limit), r_split(d, s, limit, mf), ad + ",min=" + std::to_string(mf) + ",limit=" + std::to_string(limit));
                 VS into2{ "stale" };
-                tlx::split(&into2, (char)c, SV(s), mf, limit);
+                tlx::split(&into2, (char)c, sv_s, mf, limit);
                 EXPECT("split(into,char,min_fields)", into2, r_split(d, s, limit, mf), ad);
             }
         }
     }
     for (const S& d : sets) {
         { S t = s; tlx::erase_all(&t, SV(d)); EXPECT("erase_all(string*,set)", t, r_erase_all(s, d), a + "," + show(d)); }
-        EXPECT("erase_all(string_view,set)", tlx::erase_all(SV(s), SV(d)), r_erase_all(s, d), a + "," + show(d));
+        EXPECT("erase_all(string_view,set)", tlx::erase_all(sv_s, SV(d)), r_erase_all(s, d), a + "," + show(d));
     }
     { S t = s; tlx::erase_all(&t); EXPECT("erase_all(string*)", t, r_erase_all(s, " "), a); }
-    EXPECT("erase_all(string_view)", tlx::erase_all(SV(s)), r_erase_all(s, " "), a);
+    EXPECT("erase_all(string_view)", tlx::erase_all(sv_s), r_erase_all(s, " "), a);
     for (size_t len = 0; len <= 6; ++len) {
-        EXPECT("pad", tlx::pad(SV(s), len, '.'), r_pad(s, len, '.'), a + "," + std::to_string(len));
-        EXPECT("pad", tlx::pad(SV(s), len), r_pad(s, len, ' '), a + "," + std::to_string(len));
+        EXPECT("pad", tlx::pad(sv_s, len, '.'), r_pad(s, len, '.'), a + "," + std::to_string(len));
+        EXPECT("pad", tlx::pad(sv_s, len), r_pad(s, len, ' '), a + "," + std::to_string(len));
     }
     // hexdump / parse_hexdump, base64 (short strings; all lengths are in mode=codec)
-    EXPECT("hexdump(string_view)", tlx::hexdump(SV(s)), r_hex(s, true), a);
-    EXPECT("hexdump_lc(string_view)", tlx::hexdump_lc(SV(s)), r_hex(s, false), a);
-    EXPECT("parse_hexdump(hexdump)", tlx::parse_hexdump(tlx::hexdump(SV(s))), s, a);
-    EXPECT("parse_hexdump(hexdump_lc)", tlx::parse_hexdump(tlx::hexdump_lc(SV(s))), s, a);
-    EXPECT("base64_encode", tlx::base64_encode(SV(s)), r_b64(s), a);
-    EXPECT("base64_decode(base64_encode)", tlx::base64_decode(SV(tlx::base64_encode(SV(s))), true), s, a);
+    EXPECT("hexdump(string_view)", tlx::hexdump(sv_s), r_hex(s, true), a);
+    EXPECT("hexdump_lc(string_view)", tlx::hexdump_lc(sv_s), r_hex(s, false), a);
+    EXPECT("parse_hexdump(hexdump)", tlx::parse_hexdump(tlx::hexdump(sv_s)), s, a);
+    EXPECT("parse_hexdump(hexdump_lc)", tlx::parse_hexdump(tlx::hexdump_lc(sv_s)), s, a);
+    EXPECT("base64_encode", tlx::base64_encode(sv_s), r_b64(s), a);
+    EXPECT("base64_decode(base64_encode)", tlx::base64_decode(SV(tlx::base64_encode(sv_s)), true), s, a);
     // join_quoted <-> split_quoted for the one-element vector and for a split of s into fields
     {
         VS v{ s };
@@ -261,65 +284,67 @@ static void check_one_string(const S& s) {
 
 static void check_two_strings(const S& s, const S& t) {
     S a = show(s) + "," + show(t);
+    Slice slice_s(s), slice_t(t);
+    const SV sv_s = slice_s.sv, sv_t = slice_t.sv;
     bool cs = !has_nul(s), ct = !has_nul(t);
     // starts/ends/contains
     bool sw = s.size() >= t.size() && s.compare(0, t.size(), t) == 0;
     bool ew = s.size() >= t.size() && s.compare(s.size() - t.size(), t.size(), t) == 0;
     bool swi = s.size() >= t.size() && r_lower(s.substr(0, t.size())) == r_lower(t);
     bool ewi = s.size() >= t.size() && r_lower(s.substr(s.size() - t.size())) == r_lower(t);
-    EXPECT("starts_with", tlx::starts_with(SV(s), SV(t)), sw, a);
-    EXPECT("starts_with_icase", tlx::starts_with_icase(SV(s), SV(t)), swi, a);
-    EXPECT("ends_with(view,view)", tlx::ends_with(SV(s), SV(t)), ew, a);
-    EXPECT("ends_with_icase(view,view)", tlx::ends_with_icase(SV(s), SV(t)), ewi, a);
-    if (cs) { EXPECT("ends_with(cstr,view)", tlx::ends_with(s.c_str(), SV(t)), ew, a); EXPECT("ends_with_icase(cstr,view)", tlx::ends_with_icase(s.c_str(), SV(t)), ewi, a); }
-    if (ct) { EXPECT("ends_with(view,cstr)", tlx::ends_with(SV(s), t.c_str()), ew, a); EXPECT("ends_with_icase(view,cstr)", tlx::ends_with_icase(SV(s), t.c_str()), ewi, a); }
+    EXPECT("starts_with", tlx::starts_with(sv_s, sv_t), sw, a);
+    EXPECT("starts_with_icase", tlx::starts_with_icase(sv_s, sv_t), swi, a);
+    EXPECT("ends_with(view,view)", tlx::ends_with(sv_s, sv_t), ew, a);
+    EXPECT("ends_with_icase(view,view)", tlx::ends_with_icase(sv_s, sv_t), ewi, a);
+    if (cs) { EXPECT("ends_with(cstr,view)", tlx::ends_with(s.c_str(), sv_t), ew, a); EXPECT("ends_with_icase(cstr,view)", tlx::ends_with_icase(s.c_str(), sv_t), ewi, a); }
+    if (ct) { EXPECT("ends_with(view,cstr)", tlx::ends_with(sv_s, t.c_str()), ew, a); EXPECT("ends_with_icase(view,cstr)", tlx::ends_with_icase(sv_s, t.c_str()), ewi, a); }
     if (cs && ct) { EXPECT("ends_with(cstr,cstr)", tlx::ends_with(s.c_str(), t.c_str()), ew, a); EXPECT("ends_with_icase(cstr,cstr)", tlx::ends_with_icase(s.c_str(), t.c_str()), ewi, a); }
-    EXPECT("contains(view,view)", tlx::contains(SV(s), SV(t)), s.find(t) != S::npos, a);
+    EXPECT("contains(view,view)", tlx::contains(sv_s, sv_t), s.find(t) != S::npos, a);
     // case-insensitive comparison: sign like strcmp on the lower-cased bytes (unsigned)
     int rc = r_cmp_icase(s, t);
-    EXPECT("compare_icase(view,view)", sgn(tlx::compare_icase(SV(s), SV(t))), rc, a);
-    EXPECT("equal_icase(view,view)", tlx::equal_icase(SV(s), SV(t)), rc == 0, a);
-    if (cs) { EXPECT("compare_icase(cstr,view)", sgn(tlx::compare_icase(s.c_str(), SV(t))), rc, a); EXPECT("equal_icase(cstr,view)", tlx::equal_icase(s.c_str(), SV(t)), rc == 0, a); }
-    if (ct) { EXPECT("compare_icase(view,cstr)", sgn(tlx::compare_icase(SV(s), t.c_str())), rc, a); EXPECT("equal_icase(view,cstr)", tlx::equal_icase(SV(s), t.c_str()), rc == 0, a); }
+    EXPECT("compare_icase(view,view)", sgn(tlx::compare_icase(sv_s, sv_t)), rc, a);
+    EXPECT("equal_icase(view,view)", tlx::equal_icase(sv_s, sv_t), rc == 0, a);
+    if (cs) { EXPECT("compare_icase(cstr,view)", sgn(tlx::compare_icase(s.c_str(), sv_t)), rc, a); EXPECT("equal_icase(cstr,view)", tlx::equal_icase(s.c_str(), sv_t), rc == 0, a); }
+    if (ct) { EXPECT("compare_icase(view,cstr)", sgn(tlx::compare_icase(sv_s, t.c_str())), rc, a); EXPECT("equal_icase(view,cstr)", tlx::equal_icase(sv_s, t.c_str()), rc == 0, a); }
     if (cs && ct) { EXPECT("compare_icase(cstr,cstr)", sgn(tlx::compare_icase(s.c_str(), t.c_str())), rc, a); EXPECT("equal_icase(cstr,cstr)", tlx::equal_icase(s.c_str(), t.c_str()), rc == 0, a); }
     // less_icase: the documentation does not fix where bytes >= 0x80 sort; required: agreement with
     // compare_icase < 0 when both strings are 7-bit, irreflexivity/asymmetry and consistency
     // with equal_icase always, and all four overloads agree with each other
     {
-        bool l_st = tlx::less_icase(SV(s), SV(t)), l_ts = tlx::less_icase(SV(t), SV(s));
+        bool l_st = tlx::less_icase(sv_s, sv_t), l_ts = tlx::less_icase(sv_t, sv_s);
         ++g_calls;
         bool seven = true;
         for (unsigned char c : s + t) if (c >= 0x80) seven = false;
         if (seven && l_st != (rc < 0)) verif::fail("C19:less_icase(view,view)", "less_icase(" + a + ") = " + show(l_st) + " but compare_icase gives " + show(rc));
         if (l_st && l_ts) verif::fail("C19:less_icase(view,view)", "not asymmetric for " + a);
         if ((rc == 0) != (!l_st && !l_ts)) verif::fail("C19:less_icase(view,view)", "inconsistent with equal_icase for " + a);
-        if (cs) EXPECT("less_icase(cstr,view)", tlx::less_icase(s.c_str(), SV(t)), l_st, a);
-        if (ct) EXPECT("less_icase(view,cstr)", tlx::less_icase(SV(s), t.c_str()), l_st, a);
+        if (cs) EXPECT("less_icase(cstr,view)", tlx::less_icase(s.c_str(), sv_t), l_st, a);
+        if (ct) EXPECT("less_icase(view,cstr)", tlx::less_icase(sv_s, t.c_str()), l_st, a);
         if (cs && ct) EXPECT("less_icase(cstr,cstr)", tlx::less_icase(s.c_str(), t.c_str()), l_st, a);
-        EXPECT("less_icase_asc", tlx::less_icase_asc()(SV(s), SV(t)), l_st, a);
+        EXPECT("less_icase_asc", tlx::less_icase_asc()(sv_s, sv_t), l_st, a);
     }
     // levenshtein
-    EXPECT("levenshtein(view,view)", tlx::levenshtein(SV(s), SV(t)), r_lev(s, t, false), a);
-    EXPECT("levenshtein_icase(view,view)", tlx::levenshtein_icase(SV(s), SV(t)), r_lev(s, t, true), a);
+    EXPECT("levenshtein(view,view)", tlx::levenshtein(sv_s, sv_t), r_lev(s, t, false), a);
+    EXPECT("levenshtein_icase(view,view)", tlx::levenshtein_icase(sv_s, sv_t), r_lev(s, t, true), a);
     if (cs && ct) { EXPECT("levenshtein(cstr,cstr)", tlx::levenshtein(s.c_str(), t.c_str()), r_lev(s, t, false), a); EXPECT("levenshtein_icase(cstr,cstr)", tlx::levenshtein_icase(s.c_str(), t.c_str()), r_lev(s, t, true), a); }
     if (t.empty()) return;
     // t as needle / separator (non-empty)
     for (const S& ins : { S(), S("Z"), t + t, S("a") + t }) {
         S ai = a + "," + show(ins);
-        { S x = s; tlx::replace_first(&x, SV(t), SV(ins)); EXPECT("replace_first(string*)", x, r_replace(s, t, ins, false), ai); }
-        EXPECT("replace_first(string_view)", tlx::replace_first(SV(s), SV(t), SV(ins)), r_replace(s, t, ins, false), ai);
-        { S x = s; tlx::replace_all(&x, SV(t), SV(ins)); EXPECT("replace_all(string*)", x, r_replace(s, t, ins, true), ai); }
-        EXPECT("replace_all(string_view)", tlx::replace_all(SV(s), SV(t), SV(ins)), r_replace(s, t, ins, true), ai);
+        { S x = s; tlx::replace_first(&x, sv_t, SV(ins)); EXPECT("replace_first(string*)", x, r_replace(s, t, ins, false), ai); }
+        EXPECT("replace_first(string_view)", tlx::replace_first(sv_s, sv_t, SV(ins)), r_replace(s, t, ins, false), ai);
+        { S x = s; tlx::replace_all(&x, sv_t, SV(ins)); EXPECT("replace_all(string*)", x, r_replace(s, t, ins, true), ai); }
+        EXPECT("replace_all(string_view)", tlx::replace_all(sv_s, sv_t, SV(ins)), r_replace(s, t, ins, true), ai);
     }
     for (size_t limit : { (size_t)0, (size_t)1, (size_t)2, (size_t)3, S::npos }) {
         S al = a + ",limit=" + std::to_string(limit);
-        EXPECT("split(string)", tlx::split(SV(t), SV(s), limit), r_split(t, s, limit), al);
+        EXPECT("split(string)", tlx::split(sv_t, sv_s, limit), r_split(t, s, limit), al);
         VS into{ "stale" };
-        tlx::split(&into, SV(t), SV(s), limit);
+        tlx::split(&into, sv_t, sv_s, limit);
         EXPECT("split(into,string)", into, r_split(t, s, limit), al);
-        EXPECT("split(string,min_fields)", tlx::split(SV(t), SV(s), (size_t)3, limit), r_split(t, s, limit, 3), al);
+        EXPECT("split(string,min_fields)", tlx::split(sv_t, sv_s, (size_t)3, limit), r_split(t, s, limit, 3), al);
         VS into2{ "stale" };
-        tlx::split(&into2, SV(t), SV(s), (size_t)3, limit);
+        tlx::split(&into2, sv_t, sv_s, (size_t)3, limit);
         EXPECT("split(into,string,min_fields)", into2, r_split(t, s, limit, 3), al);
     }
 }
@@ -402,8 +427,9 @@ static void log_record(const char* op, const S& in, const S& out, size_t arg) {
 
 static void codec_one(const S& s, Rng& rng, bool log) {
     S a = std::to_string(s.size()) + " bytes " + show(s.substr(0, 24)) + (s.size() > 24 ? "..." : "");
-    // hexdump family
-    S hu = tlx::hexdump(s.data(), s.size()), hl = tlx::hexdump_lc(s.data(), s.size());
+    Slice sl(s);
+    // hexdump family (pointer+size entry points read from a block that is not NUL-terminated)
+    S hu = tlx::hexdump(sl.sv.data(), s.size()), hl = tlx::hexdump_lc(sl.sv.data(), s.size());
     EXPECT("hexdump(ptr,size)", hu, r_hex(s, true), a);
     EXPECT("hexdump_lc(ptr,size)", hl, r_hex(s, false), a);
     EXPECT("hexdump(string_view)", tlx::hexdump(SV(s)), hu, a);
@@ -416,12 +442,12 @@ static void codec_one(const S& s, Rng& rng, bool log) {
     EXPECT("parse_hexdump(hexdump_lc)", tlx::parse_hexdump(SV(hl)), s, a);
     if (log) { log_record("hexdump", s, hu, 0); log_record("hexdump_lc", s, hl, 0); }
     // base64
-    S e0 = tlx::base64_encode(s.data(), s.size());
+    S e0 = tlx::base64_encode(sl.sv.data(), s.size());
     EXPECT("base64_encode", e0, r_b64(s), a);
     EXPECT("base64_encode(string_view)", tlx::base64_encode(SV(s)), e0, a);
     if (log) log_record("base64", s, e0, 0);
     for (size_t lb : { (size_t)4, (size_t)8, (size_t)76, (size_t)(4 * (1 + rng.below(30))) }) {
-        S e = tlx::base64_encode(s.data(), s.size(), lb);
+        S e = tlx::base64_encode(sl.sv.data(), s.size(), lb);
         S al = a + ",line_break=" + std::to_string(lb);
         S stripped; size_t line = 0; bool ok = true;
         for (char c : e) {
@@ -432,7 +458,8 @@ static void codec_one(const S& s, Rng& rng, bool log) {
         EXPECT("base64_encode(line_break):letters", stripped, r_b64(s), al);
         EXPECT("base64_encode(line_break):line-lengths", ok, true, al + " -> " + show(e.substr(0, 120)));
         if (log) log_record("base64lb", s, e, lb);
-        EXPECT("base64_decode(strict)", tlx::base64_decode(e.data(), e.size(), true), s, al);
+        Slice se(e);
+        EXPECT("base64_decode(strict)", tlx::base64_decode(se.sv.data(), e.size(), true), s, al);
         EXPECT("base64_decode(non-strict)", tlx::base64_decode(SV(e), false), s, al);
     }
     EXPECT("base64_decode(strict)", tlx::base64_decode(SV(e0), true), s, a);
